@@ -123,7 +123,7 @@ fn step_mod_ii() { let sa: i8 = kani::any(); let sb: i8 = kani::any(); let a = s
 fn step_mod_total() { let x = any_num(); let y = any_num();
     assert!(ok(eval(Node::Modulo(leaf(&x), leaf(&y)))).is_some(), "never Err, never a panic"); }
 
-// @obligation owners=C09,C01 fn=eval_number::ast::eval/Divide+Modulo(Integer,Integer) bounded="the 16 corner operand pairs from {MIN, -1, 0, MAX}^2 (concrete)"
+// @obligation owners=C09,C01 fn=eval_number::ast::eval/Divide+Modulo(Integer,Integer) tier=thorough bounded="the 16 corner operand pairs from {MIN, -1, 0, MAX}^2 (concrete)"
 #[kani::proof]
 fn step_div_mod_corners() {
     let c = [i64::MIN, -1, 0, i64::MAX];
@@ -208,7 +208,7 @@ fn step_pow_if() { let x: i64 = kani::any(); let y: f64 = kani::any();
 // NOTE: the value of Integer ^ Integer is NOT an obligation here: Kani 0.68's model of this arm disagrees with native
 // execution (even the concrete Pow(Integer(3), Integer(2)) "may return a Float" for CBMC while the native run of the
 // same harness returns Integer(9)); the counterexample does not replay, so the obligation is reported as open.
-// @obligation owners=C01,C09 fn=eval_number::ast::eval/Pow(Integer,Integer)
+// @obligation owners=C01,C09 fn=eval_number::ast::eval/Pow(Integer,Integer) tier=thorough
 #[kani::proof]
 #[kani::unwind(40)]
 #[kani::stub(f64::powf, s_powf)]
